@@ -11,7 +11,7 @@ def sh(cmd, **kw):
 out, k, ids = sys.argv[1], sys.argv[2], sys.argv[3:]
 src = os.path.join(out, k)
 pid = ids[0]
-dst = os.path.join(V, "seeded", "%s-%s" % (pid, k))
+dst = os.path.join(V, "seeded", "%s-%s%s" % (pid, os.environ.get("SEED_TAG", ""), k))
 os.makedirs(dst, exist_ok=True)
 for f in os.listdir(src):
     shutil.copy(os.path.join(src, f), dst)
